@@ -167,3 +167,35 @@ pub fn witness3() -> RawCnf {
         .map(|ch| if ch == 'A' { vec![(0, true), (1, true), (2, true)] } else { vec![(0, false), (3, true), (4, true)] })
         .collect()
 }
+
+/// witnesses 4 and 5 (finding F18): collisions of the 64-bit *semantic* hash, computed by two
+/// bug-hunting sub-agents from the weights that `create_semantic_hash_map` produced when its
+/// random generator was seeded with the constant 101249 (the hash is linear in the model set, so
+/// a collision is a 4-list generalised-birthday problem: 25-70 s).  A model is the integer whose
+/// bit i is the value of variable i.
+/// Witness 4: two functions of x0..x6 with disjoint model sets and one hash.
+pub const SEM_F: [usize; 25] = [0, 1, 5, 7, 8, 9, 13, 14, 15, 17, 18, 19, 20, 22, 32, 35, 36, 39, 40, 41, 42, 43, 44, 45, 51];
+pub const SEM_G: [usize; 18] = [64, 67, 70, 71, 73, 74, 75, 76, 77, 79, 82, 86, 96, 97, 98, 103, 111, 116];
+/// Witness 5: y-models over x1..x6 (bit j = value of x(j+1)); the sums of the model weights over
+/// PLUS and over MINUS agree, so F = all but MINUS and G = all but PLUS have one hash.  The CNF
+/// "if x0 then F else G" has 30 clauses of 7 literals.
+pub const SEM_PLUS: [usize; 14] = [7, 8, 19, 21, 26, 32, 35, 40, 41, 43, 49, 54, 59, 61];
+pub const SEM_MINUS: [usize; 16] = [3, 13, 16, 23, 27, 33, 34, 37, 42, 45, 46, 50, 52, 57, 60, 62];
+
+pub fn witness5() -> RawCnf {
+    let exclude = |xpol: bool, m: usize| -> Vec<(usize, bool)> {
+        let mut c = vec![(0usize, xpol)];
+        for j in 0..6 {
+            c.push((j + 1, (m >> j) & 1 == 0));
+        }
+        c
+    };
+    let mut raw: RawCnf = Vec::new();
+    for m in SEM_MINUS {
+        raw.push(exclude(false, m));
+    }
+    for m in SEM_PLUS {
+        raw.push(exclude(true, m));
+    }
+    raw
+}
